@@ -53,6 +53,15 @@ inductive Err where
 exception raised -/
 abbrev Res := Except Err (Option Nat)
 
+instance {α : Type} [DecidableEq α] : DecidableEq (Except Err α) := fun a b =>
+  match a, b with
+  | Except.ok x, Except.ok y =>
+    if h : x = y then isTrue (by rw [h]) else isFalse (by intro e; injection e; contradiction)
+  | Except.error x, Except.error y =>
+    if h : x = y then isTrue (by rw [h]) else isFalse (by intro e; injection e; contradiction)
+  | Except.ok _, Except.error _ => isFalse (by intro e; cases e)
+  | Except.error _, Except.ok _ => isFalse (by intro e; cases e)
+
 /-- the nonce the fake physical lock writes for a fresh write lock -/
 def nonce : Nat := 7
 
@@ -320,6 +329,17 @@ def Branch.step (s : Branch) : SOp → Branch × Res
   | .branch (.lockWrite t) => s.lockWrite t
   | .branch .unlock => s.unlock
   | .repo o => let (r, res) := s.repo.step o; ({ s with repo := r }, res)
+
+/-- the same stack with the guard that `GitBranch.unlock` / `GitWorkingTree.unlock`
+already have and that the proposed fix adds to `BzrBranch.unlock`:
+`if not self.control_files.is_locked(): return cant_unlock_not_held(self)`
+before anything else.  The harness probes which of the two variants the
+working tree implements and ties that one. -/
+def Branch.stepG (s : Branch) : SOp → Branch × Res
+  | .branch .unlock => if !s.isLocked then (s, .error .notHeld) else s.unlock
+  | o => s.step o
+
+def Branch.runG (s : Branch) (ops : List SOp) : Branch := ops.foldl (fun s o => (s.stepG o).1) s
 
 /-- run a sequence of operations, ignoring results -/
 def CL.run (s : CL) (ops : List Op) : CL := ops.foldl (fun s o => (s.step o).1) s
